@@ -3,6 +3,7 @@
 -/
 import Driver.Codec
 import Stun.Model.Integrity
+import Stun.Model.Alloc
 import Stun.Spec.Hash
 namespace Stun.Driver
 open Stun
@@ -105,6 +106,58 @@ where stepGetx (s : CState) (toks : List String) : Option (CState × String) :=
       | r => s!"{showCheck r} {dump m}")
   | ["LTKEY", u, r, p] =>
     some (s, showHex (Spec.md5 (hex! u ++ [58] ++ hex! r ++ [58] ++ hex! p)))
+  -- C20: `ALLOC …` lines measure heap allocations per run on warm objects (one warm-up run, then the measured runs);
+  -- the model performs the warm-up, then counts what its capacity accounting says about one more run
+  | ["SPARE", i, k, seed] =>
+    let m := s.get (nat! i)
+    let pre := { m with mem := m.raw ++ poison (nat! seed) (nat! k), len := m.len }
+    let (m', _) := pre.decode
+    some ((s.set (nat! i) m').setStale (nat! i) (staleAfter (s.isStale (nat! i)) pre), showDecode m' pre)
+  | ["ALLOC", "dec", i, mode, h] =>
+    let m := s.get (nat! i)
+    let data := hex! h
+    if mode == "readfrom" then
+      let chunk := data.take m.mem.length
+      let pre := { m with mem := chunk ++ m.mem.drop chunk.length, len := chunk.length }
+      let (m', _) := pre.decode
+      some ((s.set (nat! i) m').setStale (nat! i) (staleAfter (s.isStale (nat! i)) pre),
+        s!"allocs={Alloc.realloc m m'} {showDecode m' pre}")
+    else
+      let warm := (m.decodeFrom data).1
+      let pre := warm.setRaw data
+      let (m', _) := pre.decode
+      some ((s.set (nat! i) m').setStale (nat! i) (staleAfter (s.isStale (nat! i)) (m.setRaw data)),
+        s!"allocs={Alloc.decodeFrom warm data} {showDecode m' pre}")
+  | ["ALLOC", "clone", i, j] =>
+    let src := s.get (nat! i)
+    let dst := s.get (nat! j)
+    let warm := (dst.decodeFrom src.raw).1
+    let pre := warm.setRaw src.raw
+    let (m', _) := pre.decode
+    some ((s.set (nat! j) m').setStale (nat! j) (staleAfter (s.isStale (nat! j)) (dst.setRaw src.raw)),
+      s!"allocs={Alloc.decodeFrom warm src.raw} {showDecode m' pre}")
+  | ["ALLOC", "get", i] => some (s, s!"allocs=0 n={(s.get (nat! i)).attrs.length + 1}")
+  | ["ALLOC", "getx", i] =>
+    let m := s.get (nat! i)
+    let okA (r : GetRes Addr) : Nat := match r with | .ok _ => 1 | _ => 0
+    let okT (k : TextKind) : Nat := match textGetFromAs m k.attr with | .ok _ => 1 | _ => 0
+    let n := okA (xorGetFromAs m 0x20) + okA (xorGetFromAs m 0x12) + okA (xorGetFromAs m 0x16) +
+      okA (mappedGetFromAs m 0x1) + okA (mappedGetFromAs m 0x8023) + okA (mappedGetFromAs m 0x802b) +
+      okA (mappedGetFromAs m 0x802c) + okT .username + okT .realm + okT .nonce + okT .software +
+      (match errorCodeGetFrom m with | .ok _ => 1 | _ => 0) + (match unknownGetFrom m with | .ok _ => 1 | _ => 0)
+    some (s, s!"allocs=0 ok={n}")
+  | ["ALLOC", "check", i, "mi", k] =>
+    let m := s.get (nat! i)
+    let (m', r) := integrityCheck theMac (hex! k) m
+    some (s.set (nat! i) m', s!"allocs={Alloc.integrityCheck m} {showCheck r} spare20={decide (m.len + 20 ≤ m.mem.length)}")
+  | ["ALLOC", "check", i, "fp"] => some (s, s!"allocs=0 {showCheck (fingerprintCheck (s.get (nat! i)))}")
+  | ["ALLOC", "build", i, toks] =>
+    match parseSetters toks with
+    | none => none
+    | some ss =>
+      let warm := (build theMac (s.get (nat! i)) ss).1
+      let r := build theMac warm ss
+      some ((s.set (nat! i) r.1).setStale (nat! i) false, s!"allocs={Alloc.build theMac warm ss} {showSetRes r}")
   -- the harness fills the getters' destination values with leftovers of an earlier use: results do not depend on them
   | ["PRIME", _] => some (s, "ok")
   | ["FPVAL", h] => some (s, s!"{fingerprintValue (hex! h)}")
